@@ -5,13 +5,15 @@ O1 == 0 + (NKeyLens)
 O2 == O1 + (Len(Scalars)+NKeyRand)
 O3 == O2 + (NShapes)
 O4 == O3 + NKeyEnc
-Count == O4 + NRelKeys
+O5 == O4 + NRelKeys
+Count == O5 + NTwinHist
 ItemAt(g) ==
   IF g <= O1 THEN KeyLenAt(g - 0)
   ELSE IF g <= O2 THEN KeyAt(g - O1)
   ELSE IF g <= O3 THEN ShapeAt(g - O2)
   ELSE IF g <= O4 THEN KeyEncAt(g - O3)
-  ELSE RelKeysAt(g - O4)
+  ELSE IF g <= O5 THEN RelKeysAt(g - O4)
+  ELSE TwinKeyAt(2 * (g - O5))
 Histories == IF "VERIF_TIER" \in DOMAIN IOEnv /\ IOEnv.VERIF_TIER = "thorough" THEN 300 ELSE 40
 VARIABLE n
 INSTANCE GenBase
